@@ -70,17 +70,21 @@ impl Palette {
                     }
                 } else if index >= nb_colors {
                     let index = index - nb_colors;
+                    // `bit_depth` may be 31: compute in 64 bits.
+                    let max_value = (1i64 << bit_depth) - 1;
                     if index < 64 {
                         for (c, sample) in channels_it.enumerate() {
+                            let digit = index.checked_shr(2 * c as u32).unwrap_or(0) % 4;
                             *sample = S::from_i32(
-                                ((index >> (2 * c)) % 4) * ((1i32 << bit_depth) - 1) / 4
-                                    + (1i32 << bit_depth.saturating_sub(3)),
+                                (digit as i64 * max_value / 4
+                                    + (1i64 << bit_depth.saturating_sub(3)))
+                                    as i32,
                             );
                         }
                     } else {
                         let mut index = index - 64;
                         for sample in channels_it {
-                            *sample = S::from_i32((index % 5) * ((1i32 << bit_depth) - 1) / 4);
+                            *sample = S::from_i32(((index % 5) as i64 * max_value / 4) as i32);
                             index /= 5;
                         }
                     }
